@@ -90,6 +90,11 @@ def genHistory (pipe : String) (n : Nat) : G (List String) := do
     let (ds, k) ← mkData
     nflows := k
     sets := sets ++ (if optsFirst then os ++ ds else ds ++ os)
+    -- now and then a data set of a template nobody announced sits in front: the datagram reports
+    -- "template not found", the announcement and the flows of the other sets still count
+    let strayFirst ← chance 1 7
+    if strayFirst then
+      sets := [SSet.data 999 [⟨1, 4, none⟩] [[⟨← bytesOf 4, false⟩]] 0] ++ sets
     let m0 : Msg := ⟨version, 0, ← bitsVal 32, ← bitsVal 32, ← bitsVal 32, dom, sets⟩
     let m := { m0 with count := max (totalRecords m0) sets.length }
     scopes := (key, sc) :: scopes.filter (fun x => x.1 != key)
@@ -99,7 +104,7 @@ def genHistory (pipe : String) (n : Nat) : G (List String) := do
     match announced with
     | some v => rates := (rkey, v) :: rates.filter (fun x => x.1 != rkey)
     | none => pure ()
-    out := out ++ [pktLine pipe e clock (encode m), "expect @res ok", "expect @count " ++ toString nflows,
+    out := out ++ [pktLine pipe e clock (encode m), (if strayFirst then "expect @res err:template-not-found" else "expect @res ok"), "expect @count " ++ toString nflows,
                    "expect @col * SamplingRate=" ++ toString rate]
   pure out
 
